@@ -141,6 +141,26 @@ type Proc struct {
 	N     *Node
 	Epoch int
 	dead  bool
+	eager sync.WaitGroup // callbacks the fakes fired on their own goroutines (Node.Eager)
+}
+
+// eagerly runs a back-end callback the way the real back-ends do when the awaited event has already
+// happened at registration time: at once, on its own goroutine, concurrently with the registering call.
+// The step that contains the registration waits for it before it returns to the test.
+func (p *Proc) eagerly(fn func()) {
+	p.eager.Add(1)
+	go func() {
+		defer p.eager.Done()
+		defer func() {
+			if r := recover(); r != nil {
+				w := p.N.W
+				w.mu.Lock()
+				w.Panics = append(w.Panics, fmt.Sprintf("%v\n%s", r, debug.Stack()))
+				w.mu.Unlock()
+			}
+		}()
+		fn()
+	}()
 }
 
 // point records a boundary crossing. It returns true when the caller belongs
@@ -235,6 +255,18 @@ func (w *World) Step(n *Node, fn func()) (crashed bool) {
 	}()
 	select {
 	case <-done:
+		if n.Eager {
+			// callbacks fired by the fakes during this step run to their end (or to a crash) first
+			idle := make(chan struct{})
+			go func() { p.eager.Wait(); close(idle) }()
+			select {
+			case <-idle:
+			case <-w.crashed:
+				return true
+			case <-time.After(currentWatchdog()):
+				w.noteHang("a callback fired at registration time never returned")
+			}
+		}
 		// a crash may have happened on a helper goroutine that fn did not wait for
 		select {
 		case cp := <-w.crashed:
